@@ -14,7 +14,7 @@ import itertools
 
 import numpy as np
 
-from ..core import AnalysisError, call_name, dotted, is_self_attr
+from ..core import AnalysisError, call_name, dotted, is_self_attr, kwarg
 from ..flow import dominating_atoms
 from .. import fdx, fold
 from .. import fields as F
@@ -242,6 +242,42 @@ def run(ctx):
                     okr = False
                     msg = f'returns `{v[:60]}`, which is not one of the protocol\'s buffers nor a delegated result'
             ctx.ob('C04.b2', f'{ci.qual}.{mn}', okr, msg, ci.mod.rel, fn.lineno)
+
+    # give-up discipline of the protocol itself
+    ctx.decided.append('C04.b3 the apply_unitary protocol does not start an in-place sequence on the caller\'s tensor that it may abandon: every call of '
+                       'apply_unitaries on the caller\'s own args with a non-raising default is dominated by a check that every operation has a unitary')
+    ctx.rule('C04.b3', 'no give-up after a partial in-place application: inside cirq.protocols, apply_unitaries(ops, qubits, <the function\'s own args>, <default>) '
+             '- which applies the operations one by one to args.target_tensor and returns the default at the first non-unitary one, without rolling back - '
+             'is only reached after `all(has_unitary(op) for op in ops)`; callers that fall back to another strategy would otherwise continue on a corrupted state', floor=1, style='MPT')
+    pm = repo.module('cirq-core/cirq/protocols/apply_unitary_protocol.py')
+    n_sites = 0
+    for fname, f in pm.defs.items():
+        if not isinstance(f, ast.FunctionDef) or fname == 'apply_unitaries':
+            continue
+        params = {a.arg for a in f.args.args}
+        par = pm.parents()
+        for c in ast.walk(f):
+            if not (isinstance(c, ast.Call) and call_name(c) == 'apply_unitaries'):
+                continue
+            a_args = c.args[2] if len(c.args) > 2 else kwarg(c, 'args')
+            dflt = c.args[3] if len(c.args) > 3 else kwarg(c, 'default')
+            if not (isinstance(a_args, ast.Name) and a_args.id in params) or dflt is None:
+                continue           # a scratch tensor, or the raising form
+            n_sites += 1
+            ops_expr = ast.unparse(c.args[0]) if c.args else ''
+            guarded = False
+            for atom, pol in dominating_atoms(par, c, f):
+                # `if not all(has_unitary(o) for o in ops): return ...` dominates as the positive atom all(...)
+                if pol and isinstance(atom, ast.Call) and call_name(atom) == 'all' and atom.args and isinstance(atom.args[0], (ast.GeneratorExp, ast.ListComp)):
+                    g = atom.args[0]
+                    if isinstance(g.elt, ast.Call) and call_name(g.elt) == 'has_unitary' and ast.unparse(g.generators[0].iter) == ops_expr:
+                        guarded = True
+            ctx.ob('C04.b3', f'cirq.protocols.apply_unitary_protocol.{fname}:apply_unitaries-on-caller-args', guarded,
+                   '' if guarded else f'{fname} applies the decomposition of a value operation by operation to the caller\'s tensor and returns {ast.unparse(dflt)} at the first '
+                   'non-unitary one: cirq.apply_unitary(<decomposable non-unitary value>, args, default=None) reports failure but has already overwritten args.target_tensor '
+                   '(DensityMatrixSimulator on a two-qubit PauliMeasurementGate then fails with NaN probabilities)', pm.rel, c.lineno)
+    if n_sites == 0:
+        raise AnalysisError('apply_unitary_protocol: the decompose strategy no longer calls apply_unitaries on the caller args')
 
     # ------------------------------------------------------------------ C04.a
     ctx.rule('C04.a', 'has/does coherence by construction of guards: (i) _has_X_ literally True => _X_ has no give-up return; (ii) literally False => '
